@@ -146,6 +146,7 @@ func (m *MonGenesis) AfterBlock(s *Sim, req *BlockReq, res *BlockRes) {
 	}
 	CompleteExport(s.N, e)
 	opts := s.Opts
+	opts.AppDir = "" // a second instance never shares the first one's app DB directory
 	opts.Dir, opts.Wrap = "", nil
 	b := NewNode(opts)
 	if _, pi := b.InitChain(e, req.Height+1, req.Time); pi != nil {
